@@ -22,6 +22,7 @@ class Prop:
     assumptions = []
     rule = ""
     batch = 4000
+    par = 1
 
     @property
     def lean_module(self):
@@ -52,10 +53,19 @@ class Prop:
         hist = {}
         seen = set()
         samples = []
-        for i in range(0, len(cases), self.batch):
-            chunk = cases[i:i + self.batch]
+        chunks = [cases[i:i + self.batch] for i in range(0, len(cases), self.batch)]
+
+        def one(chunk):
             impl = core.run_impl(chunk)
-            model = core.run_model(chunk, impl)
+            return impl, core.run_model(chunk, impl)
+        if self.par > 1 and len(chunks) > 1:
+            # independent batches (every case is self-contained): run the two drivers on several batches at a time
+            from concurrent.futures import ThreadPoolExecutor
+            with ThreadPoolExecutor(max_workers=self.par) as ex:
+                done = ex.map(one, chunks)
+        else:
+            done = map(one, chunks)
+        for chunk, (impl, model) in zip(chunks, done):
             for c in chunk:
                 im = impl.get(c["id"])
                 mo, sp = model.get(c["id"], (None, None))
@@ -225,7 +235,7 @@ class C01(RenderProp):
     n_quick = 3000
     n_thorough = 40000
     required_theorems = ["C01_extract", "C01_ops_table", "C01_closures", "C01_arith_matrix", "C01_cmp_matrix", "C01_arith", "C01_rem", "C01_concat", "C01_compare_numbers",
-                         "C01_compare_strings", "C01_truthiness", "C01_logical_operands", "C01_conditional", "C01_eval_scalar", "C01_eval_scalar_entry", "C01_print_scalar"]
+                         "C01_compare_strings", "C01_truthiness", "C01_logical_operands", "C01_conditional", "C01_eval_scalar", "C01_eval_scalar_entry", "C01_print_scalar", "C01_render_bool_end_to_end"]
     assumptions = ["numbers are modelled by exact rationals; Number.String by fmtG10 (validated by correspondence)",
                    "the round trip pipeline AST -> action source text -> forked text/template parser is taken as the identity (validated end to end by the correspondence)"]
     rule = ("type-directed random expression trees of the supported subset (depth <= 5 quick / 8 thorough) over 8-12 typed data "
@@ -345,7 +355,7 @@ class C04(RenderProp):
     n_quick = 3600
     n_thorough = 60000
     required_theorems = ["C04_extract", "C04_matrix", "C04_wrapKind", "C04_escape_table", "C04_escape_safe", "C04_escape_hom", "C04_substitution",
-                         "C04_escape_eq_spec", "C04_print_escaped", "C04_code_escaped_scalar"]
+                         "C04_escape_eq_spec", "C04_print_escaped", "C04_code_escaped_scalar", "C04_render_escaped_end_to_end", "C04_escaped_in_every_position"]
     rule = ("every string-carrying expression shape (variable, member, nested member, index, key index, concatenation both ways, conditional both "
             "branches, || default on undefined and on empty string, &&, function result, method result, join, template literal, array literal) x 7 positions "
             "(bare, between texts, inside tags, in if / each bodies, after unbuffered code, between brace texts) x hostile strings built from the five significant "
@@ -887,8 +897,9 @@ def norm_tree(t):
 class C15(Prop):
     id = "C15"
     n_quick = 4000
-    n_thorough = 120000
+    n_thorough = 50000
     batch = 2000
+    par = 8
     required_theorems = ["C15_extract", "C15_parseFunction_total", "C15_parseFunction_tree_iff"]
     rule = ("inputs to parser.ParseFile (with and without StoreComments) and parser.ParseFunction, each run twice under recover and a per-input time bound (10 s + 0.2 ms/byte): "
             "30% well-formed expressions of the supported subset from the type-directed C01 generator (must be accepted, and the otto AST must equal the generator's tree: "
@@ -920,6 +931,8 @@ class C15(Prop):
             elif norm_tree(impl.get("ast")) != norm_tree(case["expect"]):
                 why.append("AST differs from the JavaScript tree: %s" % json.dumps(impl.get("ast"))[:300])
         ok = not why
+        if ok:
+            impl.pop("ast", None)   # 120000 retained trees are gigabytes; a failing case keeps its tree for the replay
         return (corr and (ok or any("ParseFunction: panic" in w for w in why))), ok, "%s %r: %s" % (case["bucket"], case["src"][:120], "; ".join(why) or "ok")
 
     def nontrivial(self, case, impl):
